@@ -216,6 +216,21 @@ EXTRA3 = {   # round 9 (DESIGN.md section 0g)
     "C19": "Round 9: I1 lets immutable-typed constructor parameters through; class / static methods are not session entries.",
 }
 
+EXTRA4 = {   # round 10 (DESIGN.md section 0h)
+    "C01": "Round 10: W25 value classes compare by their fields; W26 overrides keep the parameters callers pass by keyword; D5 every dispatch-table key is the tag number of exactly one message class.",
+    "C03": "Round 10: enum.auto() is numbered from the member before it, so B12 compares auto-numbered result codes with the RFC's.",
+    "C05": "Round 10: an enum `_missing_` hook that can return a non-member makes the conversion raise TypeError.",
+    "C06": "Round 10: `_missing_` hooks as in C05; truth hooks inherited through the MRO.",
+    "C07": "Round 10: S13 the `tag` parameter of read_* defaults to None; S11 accepts an unsigned read of the magnitude when the sign is handled by hand.",
+    "C09": "Round 10: N8 dispatch entries are owned by a message class.",
+    "C11": "Round 10: M3 values compare by their fields; M4 data_to_send() defaults to everything; A6 sees __len__ / __bool__ inherited from a mixin.",
+    "C12": "Round 10: D8 the amount parameter defaults to None.",
+    "C13": "Round 10: J23 filters compare by their fields; J24 every RFC 4512 name is accepted by the pattern the parser validates with.",
+    "C15": "Round 10: F10 FilterSyntaxError is a ValueError.",
+    "C16": "Round 10: H21 definitions compare by their fields; H22 defaults are the kind of collection the parser stores.",
+    "C19": "Round 10: I10 coding does not write to its options.",
+}
+
 NOT_APPLICABLE = {
     "C14": "agreement of a hand-written offset-arithmetic parser with the RFC 4515 grammar on every sentence is semantic "
            "equivalence over unbounded strings; no sound static argument in reach decides it (lexical pieces are checked under C13/C15)",
@@ -257,6 +272,8 @@ def main():
             c["text"] = c["text"] + " " + EXTRA2[pid]
         if pid in EXTRA3:
             c["text"] = c["text"] + " " + EXTRA3[pid]
+        if pid in EXTRA4:
+            c["text"] = c["text"] + " " + EXTRA4[pid]
         checks.append({
             "property_id": pid,
             "quick_cmd": f"/venv/bin/python sa/run.py {pid} --tier quick",
